@@ -146,7 +146,7 @@ def search(ctx):
         noise = {'red': 0.1, 'green': 0.3}
         resid = (calc_holo(det, Sphere(n=1.5, r=0.5, center=(0.1, 0.1, 5)), medium_index=1.33, illum_wavelen=wl, illum_polarization=(1, 0), theory=Mie()) - data)
         want = sum(stats.norm.logpdf(resid.sel(illumination=l).values.ravel(), 0, noise[l]).sum() for l in labels)
-        for form, mnoise in (("list", [0.1, 0.3]), ("dict", noise)):
+        for form, mnoise in (("list", [0.1, 0.3]), ("dict", noise), ("dict-permuted", {'green': 0.3, 'red': 0.1})):
             ctx.tried("per-channel-noise", (form,))
             m = AlphaModel(sc, alpha=1.0, noise_sd=mnoise, medium_index=1.33, illum_wavelen=wl, illum_polarization=(1, 0), theory=Mie())
             r = impl_call(lambda: float(m.lnlike([0.5], data)))
@@ -154,13 +154,14 @@ def search(ctx):
                 ctx.violation("C12:per-channel-noise-in-model:%s" % form,
                               "per-channel noise given to the model as a %s: lnlike = %r, Gaussian log-density of the residuals = %.6f" % (form, r, want),
                               dict(kind="per-channel", form=form, got=repr(r), want=want))
-        dd = update_metadata(data, noise_sd=noise)
-        m = AlphaModel(sc, alpha=1.0, medium_index=1.33, illum_wavelen=wl, illum_polarization=(1, 0), theory=Mie())
-        r = impl_call(lambda: float(m.lnlike([0.5], dd)))
-        ctx.tried("per-channel-noise", ("data-attrs",))
-        if isinstance(r, tuple) or abs(r - want) > 1e-8 * abs(want):
-            ctx.violation("C12:per-channel-noise-in-data", "per-channel noise in the data's metadata: lnlike = %r, expected %.6f" % (r, want),
-                          dict(kind="per-channel", form="data", got=repr(r), want=want))
+        for form, dnoise in (("data", noise), ("data-permuted", {'green': 0.3, 'red': 0.1})):
+            dd = update_metadata(data, noise_sd=dnoise)
+            m = AlphaModel(sc, alpha=1.0, medium_index=1.33, illum_wavelen=wl, illum_polarization=(1, 0), theory=Mie())
+            r = impl_call(lambda: float(m.lnlike([0.5], dd)))
+            ctx.tried("per-channel-noise", (form,))
+            if isinstance(r, tuple) or not (abs(r - want) <= 1e-8 * abs(want)):
+                ctx.violation("C12:per-channel-noise-in-data", "per-channel noise in the data's metadata (%s): lnlike = %r, expected %.6f" % (form, r, want),
+                              dict(kind="per-channel", form=form, got=repr(r), want=want))
     except Exception as ex:
         ctx.violation("C12:per-channel-probe-raises", "per-channel probe raised %r" % (ex,), dict(kind="per-channel"))
     for i in range(n):
@@ -181,11 +182,15 @@ def search(ctx):
             noise_from_model = rng.random() < 0.5
             model = AlphaModel(sc, alpha=alpha, noise_sd=sd if noise_from_model else None, theory=theory, **OPT)
             d2 = data if noise_from_model else update_metadata(data, noise_sd=sd)
+            conflict = noise_from_model and rng.random() < 0.6
+            if conflict:
+                # the data carries OTHER values for what the model specifies: the model's take precedence
+                d2 = update_metadata(data, medium_index=1.40, illum_wavelen=0.60, noise_sd=3.0 * sd)
             names = model._parameter_names
             pars = {}
             for nm, p in zip(names, model._parameters):
                 pars[nm] = float(p.guess * rng.uniform(0.97, 1.03))
-            info = dict(kind="posterior", pars=pars, shape=[nx, ny], lens=bool(lens), noise_from_model=bool(noise_from_model))
+            info = dict(kind="posterior", pars=pars, shape=[nx, ny], lens=bool(lens), noise_from_model=bool(noise_from_model), data_metadata_conflicts=bool(conflict))
             ctx.tried("posterior", (nx, ny, lens, noise_from_model, i))
             lp, ll, lpost = model.lnprior(pars), model.lnlike(pars, d2), model.lnposterior(pars, d2)
             if not (abs(lpost - (lp + ll)) <= 1e-9 * max(1, abs(lpost))):
